@@ -69,7 +69,7 @@ func SubJSON(tx *types.Transaction, enc, salt string, occ int, cross map[common.
 		}
 	}
 	quote := func(s string) json.RawMessage { b, _ := json.Marshal(s); return b }
-	real := tx.Clone().Hash() // computed from the fields of a fresh copy
+	real := Wire(tx).Hash() // computed from the fields of a fresh copy
 	switch enc {
 	case "h":
 		m["hash"] = quote(forgedHash(salt, occ).Hex())
@@ -182,7 +182,7 @@ func signBox(key *ecdsa.PrivateKey, exp uint64, chainID uint16, msg string, data
 // contentKey identifies the signed content and the signatures (sender's and gas payer's) of a transaction that is not a box from its
 // FIELDS (the hash the signers signed is computed from the fields, never read from a cache).
 func contentKey(tx *types.Transaction) string {
-	cp := tx.Clone()
+	cp := Wire(tx) // a fresh copy (not Clone: it dereferences the optional gasPayer member)
 	s := senderSigner(cp).Hash(cp).Hex()
 	for _, sig := range cp.Sigs() {
 		s += "/" + common.ToHex(sig)
@@ -236,7 +236,9 @@ func (u *Universe) Carried(ids []string, enc string) types.Transactions {
 		}
 		if v, ok := u.Enc[id][enc]; ok {
 			tx = v
-		} else if len(u.Subs[id]) > 0 && enc != Canon {
+		} else if u.OwnOnly[id] {
+			engine.Failf("%s is (a box around) an own-carrier variant: it does not exist in carrier encoding %q", id, enc)
+		} else if len(u.Subs[id]) > 0 && enc != Canon && !IsOwn(enc) {
 			engine.Failf("box %s was not built in carrier encoding %q", id, enc)
 		}
 		w := Wire(tx)
@@ -264,6 +266,10 @@ func (u *Universe) Ident(tx *types.Transaction) string {
 			return cand[0]
 		}
 		return "unknown-box:" + tx.Message()
+	}
+	// byte for byte one of the transactions this harness wrote (a registered transaction, or one of the forms of an own-carrier variant)
+	if id, ok := u.byWire[wireKey(tx)]; ok {
+		return id
 	}
 	for _, id := range cand {
 		if contentKey(u.Tx[id]) == contentKey(tx) {
